@@ -265,6 +265,9 @@ class PDA:
             The new PDA which accepts by final state the language that \
             was accepted by empty stack
         """
+        if self._start_state is None or self._start_stack_symbol is None:
+            # Nothing can be accepted
+            return PDA()
         new_start = get_next_free("#STARTTOFINAL#", State, self._states)
         new_end = get_next_free("#ENDTOFINAL#", State, self._states)
         new_stack_symbol = get_next_free("#BOTTOMTOFINAL#",
@@ -300,6 +303,9 @@ class PDA:
             The new PDA which accepts by empty stack the language that was \
             accepted by final state
         """
+        if self._start_state is None or self._start_stack_symbol is None:
+            # Nothing can be accepted
+            return PDA()
         new_start = get_next_free("#STARTEMPTYS#", State, self._states)
         new_end = get_next_free("#ENDEMPTYS#", State, self._states)
         new_stack_symbol = get_next_free("#BOTTOMEMPTYS#",
@@ -338,9 +344,12 @@ class PDA:
         new_cfg : :class:`~pyformlang.cfg.CFG`
             The equivalent CFG
         """
+        start = cfg.Variable("#StartCFG#")
+        if self._start_state is None or self._start_stack_symbol is None:
+            # Nothing can be accepted
+            return cfg.CFG(start_symbol=start)
         self._cfg_variable_converter = \
             CFGVariableConverter(self._states, self._stack_alphabet)
-        start = cfg.Variable("#StartCFG#")
         productions = self._initialize_production_from_start_in_to_cfg(start)
         states = self._states
         for transition in self._transition_function:
